@@ -13,7 +13,8 @@
 //   vrot    discrete-log encoding, rotation: variants cc (cyclic=true), hoogh-i, hoogh-pc, hoogh-ni; every rotation
 //           with every edit, and EVERY non-cyclic pi in S_n presented as a rotation (witness = the real secret of pi).
 //   qstack  quadratic-residue encoding: cc with cyclic=false (all pi) and cyclic=true (all rotations + every
-//           non-cyclic pi); 2 players, 2 type bits, Rabin keys 448 bit (quick) / 448+704 bit (thorough); n in 2..3.
+//           non-cyclic pi); 2 players, 2 type bits, Rabin keys 448 bit (quick) / 448+704 bit (thorough; 2048 bit in
+//           the default-regime run); n in 2..3 (n = 4 as well for the 448 bit key in the thorough tier).
 //   card    = vcard + qcard.  vcard: vremask/vmask (CP proofs), vdec (decryption share with another key / for another
 //           card), keyshare (NIZK, interactive, public coin), com (Pedersen), skc, pubrot (the sub-arguments of the
 //           shuffle / rotation proofs driven directly, n <= nmax, every pi / r).  qcard: qmask (TMCG_Prove/VerifyMaskCard,
@@ -400,8 +401,9 @@ static void q_make(QCtx &C, const std::vector<size_t> &types, const std::vector<
 static void fam_qstack(QCtx &C, const std::string &keytag)
 {
 	QWorld &QW = *C.W;
+	size_t qnmax = (THOROUGH && keytag == "m448") ? 4 : 3;
 	for (int rot = 0; rot < 2; rot++)
-	for (size_t n = 2; n <= 3; n++)
+	for (size_t n = 2; n <= qnmax; n++)
 	{
 		std::vector<std::vector<size_t> > perms = all_perms(n);
 		std::vector<std::vector<size_t> > bases;
@@ -1107,7 +1109,7 @@ int main(int argc, char **argv)
 	PS = A.geti("psize", PS), QS = A.geti("qsize", QS), LE = A.geti("le", LE);
 	NMIN = A.geti("nmin", NMIN), NMAX = A.geti("nmax", NMAX);
 	if (PS != 384 || QS != 192 || LE != 56) RTAG = "@" + str(PS) + "-" + str(QS) + "-" + str(LE);
-	rep.bound = "n in " + str(NMIN) + ".." + str(NMAX) + " (QR n<=3), all pi in S_n, all listed single edits; |p|=" + str(PS) + " |q|=" + str(QS) + " l_e=" + str(LE) + " kappa=16";
+	rep.bound = "n in " + str(NMIN) + ".." + str(NMAX) + " (QR n<=3, thorough 448-bit key n<=4), all pi in S_n, all listed single edits; |p|=" + str(PS) + " |q|=" + str(QS) + " l_e=" + str(LE) + " kappa=16";
 
 	bool vcard = (family == "all" || family == "card" || family == "vcard"), qcard = (family == "all" || family == "card" || family == "qcard");
 	bool needV = (family == "all" || family == "vstack" || family == "vrot" || vcard);
